@@ -16,6 +16,7 @@ RULE = ('Reachable states of both classes and both modes (histories of 1-10 call
 ASSUMPTIONS = ['e > t', 'degree of an undirected node with a self-loop: networkx value (loop twice) or docstring value (loop once) accepted',
                'dn.non_neighbors on directed graphs: non-successors (networkx) or nodes that are neither predecessor nor successor accepted',
                'accumulative presence as stated in C08']
+TECHNIQUE = 'differential PBT: every query of every generated state vs networkx on the static graph of the reference model'
 BUDGET = {'quick': {'cases': 12000, 'seconds': 50}, 'thorough': {'cases': 200000, 'seconds': 560}}
 KINDS = ['add', 'add', 'add', 'add', 'add_from', 'path', 'star', 'cycle', 'node', 'node', 'nodes_from', 'recip']
 
